@@ -348,9 +348,13 @@ func c15(c *core.Ctx) {
 				if !ok {
 					continue
 				}
-				cmp, _, ok := ssax.AsCmp(ifi.Cond)
+				cmp, neg, ok := ssax.AsCmp(ifi.Cond)
 				if !ok {
 					continue
+				}
+				// either operand order: `size < min` or `min > size`
+				if _, constLeft := ssax.ConstInt(cmp.X); constLeft {
+					cmp = ssax.Cmp{Op: ssax.SwapOp(cmp.Op), X: cmp.Y, Y: cmp.X}
 				}
 				call, ok := ssax.Strip(cmp.X).(*ssa.Call)
 				if !ok {
@@ -364,18 +368,24 @@ func c15(c *core.Ctx) {
 				if !ok {
 					continue
 				}
-				// the literal must not be reachable through the violating edge
-				var badEdge *ssa.BasicBlock
-				switch cmp.Op {
-				case token.LSS:
-					badEdge = b.Succs[0]
-					if !reachesAlloc(f, b, badEdge, al) {
-						lo = k
+				// an edge through which the literal cannot be reached enforces the negation of what holds on it
+				tOp := cmp.Op
+				if neg {
+					tOp = ssax.NegOp(tOp)
+				}
+				for i, op := range []token.Token{tOp, ssax.NegOp(tOp)} {
+					if len(b.Succs) != 2 || reachesAlloc(f, b, b.Succs[i], al) {
+						continue
 					}
-				case token.GTR:
-					badEdge = b.Succs[0]
-					if !reachesAlloc(f, b, badEdge, al) {
+					switch op {
+					case token.LSS: // size < k is rejected: size >= k
+						lo = k
+					case token.LEQ:
+						lo = k + 1
+					case token.GTR: // size > k is rejected: size <= k
 						hi = k
+					case token.GEQ:
+						hi = k - 1
 					}
 				}
 			}
@@ -460,8 +470,8 @@ func c15(c *core.Ctx) {
 		for _, b := range f.Blocks {
 			for _, in := range b.Instrs {
 				phi, ok := in.(*ssa.Phi)
-				if !ok || phi.Comment != "start" {
-					continue
+				if !ok {
+					continue // any loop-carried offset, whatever it is called
 				}
 				for _, e := range phi.Edges {
 					// e is `end`: phi(start+step, len(src))
